@@ -891,5 +891,12 @@ def run(F, R, config="all"):
     from . import c02
     K.borrow_rule(R, lambda sub: c02.r11(F, sub), "C01-R13", "for every kinetic-energy kind the new point's energy is its own (kinetic energy recomputed, or carried along "
                   "by the ESH update) and the two velocity half-steps read the same fields of the point (C02-R11 analysis, path-sensitive on the kind)", only_rules={"C02-R11"})
+    # reversibility of the step map: forward-then-backward returns to the start only if (a) every point of one tree is expressed in one and the same
+    # transformation (a changed transformation bumps the id, so the start point is re-whitened: C02-R5 analysis) and (b) a kernel's result depends on
+    # its arguments only, not on which call came before (C17-K9 analysis)
+    K.borrow_rule(R, lambda sub: c02.r5(F, sub), "C01-R14", "every write of a transformation's scales / mean / low-rank part is followed by the id increment on every "
+                  "path, so the tree's start point is never left in the coordinates of the previous transformation (C02-R5 analysis)", only_rules={"C02-R5"})
+    from . import c17
+    c17.stateless_backend(F, R, rid="C01-R15")
     R.assume("rand's RngExt::random::<bool>() returns true with probability 1/2")
     R.assume("MIR at -Zmir-opt-level=0 is a faithful control-flow model of the source")
